@@ -526,6 +526,82 @@ fn c11_no_wider(r: &mut Report, p: &Project, uc: &UCmd, before: &[String], live_
     }
 }
 
+/// Tie of the model's `Store.ask` (what add-exemption / record-violation push before committing):
+/// the table after the real command against the model's table after `ask`, per crate as multisets
+/// (the final sort of a written table is not modelled).
+fn check_ask(r: &mut Report, d: &mut Driver, p: &Project, uc: &UCmd, before: &[String], after: &[String], case: &str) {
+    let (Some(b), Some(a)) = (load(before), load(after)) else { return };
+    // ranks over everything that occurs after the command (the new entry may name a new version)
+    let it = wire::interner(&p.md, &a);
+    let mut t = wire::enc_table(&b.audits.criteria);
+    wire::enc_meta(&it, &p.md, &mut t);
+    wire::enc_store(&it, &b, &mut t);
+    if d.ask(&format!("world {}", t.text())) != "ok" {
+        r.fail("corr", "corr.wire.world", "driver refused the world".into(), case);
+        return;
+    }
+    let canon = |groups: Vec<(usize, Vec<Vec<u64>>)>| -> String {
+        groups.into_iter().map(|(n, mut l)| { l.sort(); format!("{n}:{l:?}") }).collect::<Vec<_>>().join(" ")
+    };
+    let (req, imp): (String, Vec<(usize, Vec<Vec<u64>>)>) = match uc {
+        UCmd::AddExemption { pkg, v, crit, no_suggest } => {
+            let mut q = wire::Toks::new();
+            q.n(1).n(it.name(pkg)).n(it.ver(v)).list(&it.crit_list(crit)).b(!no_suggest);
+            let imp = a.config.exemptions.iter().map(|(n, l)| (it.name(n), l.iter().map(|e| { let mut x = wire::Toks::new(); x.n(it.ver(&e.version)).list(&it.crit_list(&e.criteria)).b(e.suggest); x.0 }).collect())).collect();
+            (format!("ask {}", q.text()), imp)
+        }
+        UCmd::RecordViolation { pkg, req, crit } => {
+            let Ok(vr) = VersionReq::parse(req) else { return };
+            let entry = AuditEntry { who: vec![], criteria: spanned(crit), importable: true, kind: AuditKind::Violation { violation: vr }, notes: None, aggregated_from: vec![], is_fresh_import: false };
+            let mut q = wire::Toks::new();
+            q.n(0).n(it.name(pkg));
+            wire::enc_audit(&it, &entry, &mut q);
+            let imp = a.audits.audits.iter().map(|(n, l)| (it.name(n), l.iter().map(|e| { let mut x = wire::Toks::new(); wire::enc_audit(&it, e, &mut x); x.0 }).collect())).collect();
+            (format!("ask {}", q.text()), imp)
+        }
+        _ => return,
+    };
+    let ans = d.ask(&req);
+    let Some(body) = ans.strip_prefix("ok ") else {
+        r.corr("corr.cmd.ask", "ok <table>", &ans, case);
+        return;
+    };
+    // parse the model's table: k (name len entries...)
+    let toks: Vec<u64> = body.split(' ').filter_map(|x| x.parse().ok()).collect();
+    let mut pos = 0usize;
+    let mut next = |pos: &mut usize| -> u64 { let v = toks.get(*pos).copied().unwrap_or(u64::MAX); *pos += 1; v };
+    let k = next(&mut pos);
+    let mut model: Vec<(usize, Vec<Vec<u64>>)> = Vec::new();
+    for _ in 0..k.min(10000) {
+        let n = next(&mut pos) as usize;
+        let len = next(&mut pos);
+        let mut l = Vec::new();
+        for _ in 0..len.min(10000) {
+            let start = pos;
+            match uc {
+                UCmd::AddExemption { .. } => {
+                    let _v = next(&mut pos);
+                    let c = next(&mut pos);
+                    pos += c as usize;
+                    let _s = next(&mut pos);
+                }
+                _ => {
+                    match next(&mut pos) {
+                        0 => { pos += 1; }
+                        1 => { pos += 2; }
+                        _ => { let m = next(&mut pos); pos += m as usize; }
+                    }
+                    let c = next(&mut pos);
+                    pos += c as usize + 2;
+                }
+            }
+            l.push(toks[start.min(toks.len())..pos.min(toks.len())].to_vec());
+        }
+        model.push((n, l));
+    }
+    r.corr("corr.cmd.ask", &canon(imp), &canon(model), case);
+}
+
 /// C12 after a clean-up that prunes the exemptions of `names`: on the store as the next unlocked
 /// run sees it, every remaining exemption criterion of those crates is needed.
 fn c12_kept(r: &mut Report, md: &Metadata, live: &Store, names: &[String], lab: &str, case: &str) {
@@ -710,6 +786,9 @@ pub fn exec_user_history(r: &mut Report, d: &mut Driver, rng: &mut Rng, idx: u64
         }
         if after[2].contains("[[audits") || after[2].contains("[[publisher") || before[1] != after[1] {
             nontrivial = true;
+        }
+        if matches!(uc, UCmd::AddExemption { .. } | UCmd::RecordViolation { .. }) {
+            check_ask(r, d, &p, &uc, &before, &after, &case);
         }
         let live_after = p.acquire(false).ok().map(|s| s.clone_for_suggest(false));
         let verdict_after = live_after.as_ref().map(|s| verdict_of(&md, s));
